@@ -718,6 +718,44 @@ Section Facts.
           injection H as <- _. destruct (the_key f ra); exact H1.
       Qed.
 
+      (* with full_output, and in the uncached twin, nothing is returned early *)
+      Definition hit_full_at (n : nat) : Prop :=
+        forall st o st' r, full = true \/ use = false -> RUN n st o = (st', r) -> xhit st' = xhit st.
+
+      Lemma hit_full_args n f : hit_full_at n -> full = true \/ use = false -> forall ps st acc st' r,
+        ARGS (RUN n) f ps st acc = (st', r) -> xhit st' = xhit st.
+      Proof.
+        intros IH Hq. induction ps as [|[cur orig] t IHt]; intros st acc st' r H.
+        - cbn in H. now injection H as <- _.
+        - rewrite cget_args_cons in H. destruct (cresolve p kw (RUN n) f st cur) as [st1 rv] eqn:Er.
+          assert (H1 : xhit st1 = xhit st).
+          { unfold cresolve in Er. destruct (aget (bound f) cur); [now injection Er as <- _|].
+            destruct (aget kw cur); [now injection Er as <- _|]. destruct (is_output p cur); [now apply (IH st cur st1 rv)|].
+            destruct (pdefault p cur); now injection Er as <- _. }
+          destruct rv as [v|e]; [|now injection H as <- _]. rewrite <- H1. now apply (IHt (x_use st1 cur) _ st' r H).
+      Qed.
+
+      Lemma hit_full : forall n, hit_full_at n.
+      Proof.
+        induction n as [|n IH]; intros st o st' r Hq H; [cbn in H; now injection H as <- _|].
+        rewrite crun_out_S in H. destruct (aget (xres st) o); [now injection H as <- _|].
+        destruct (producer p o) as [f|]; [|now injection H as <- _].
+        destruct (root_args p o) as [ra|e]; [|now injection H as <- _].
+        unfold run_func in H. destruct (found_of st (the_key f ra)) as [[ov c1]|] eqn:Efound.
+        - assert (Hfull : full = true).
+          { destruct Hq as [Hq|Hq]; [exact Hq|]. unfold found_of, the_key in Efound. rewrite Hq in Efound. discriminate. }
+          unfold hit_branch in H. destruct (hit_value f ov) as [r0|e]; [|now injection H as <- _].
+          destruct (negb full) eqn:En; [rewrite Hfull in En; discriminate|]. cbn zeta in H.
+          destruct (ARGS (RUN n) f (params f) _ []) as [st2 ra2] eqn:Ea.
+          pose proof (hit_full_args n f IH Hq _ _ _ _ _ Ea) as H2. cbn in H2.
+          destruct ra2; now injection H as <- _.
+        - unfold miss_branch in H. destruct (ARGS (RUN n) f (params f) st []) as [st1 ra1] eqn:Ea.
+          pose proof (hit_full_args n f IH Hq _ _ _ _ _ Ea) as H1.
+          destruct ra1 as [args|e]; [|now injection H as <- _].
+          destruct (body (fname f) args); [|now injection H as <- _].
+          injection H as <- _. destruct (the_key f ra); exact H1.
+      Qed.
+
       (* a run for o never touches names of larger rank *)
       Definition frame_at (n : nat) : Prop :=
         forall st o st' r x, RUN n st o = (st', r) -> RK o < RK x -> aget (xres st') x = aget (xres st) x.
@@ -916,6 +954,64 @@ Section Facts.
           split; [|exact HR2]. rewrite <- Hvu. unfold out_of.
           pose proof (proj2 HR2 o HoX) as E. cbn [xres x_res x_log] in E. rewrite E2 in E.
           clear HR2 E1 E2. subst stc3. destruct (the_key kw true f ra); cbn [xres x_c x_log]; now rewrite E.
+      Qed.
+
+      (* ---------------------------------------------------------------- 7a. one call of both twins *)
+      Lemma init_inv c : cache_inv c -> INV (cinit kw c).
+      Proof.
+        intros Hc. split; [|exact Hc]. split; cbn.
+        - intros n v H. exact H.
+        - intros n v H. now left.
+      Qed.
+
+      Definition outcome_eq (a b : outcome) : Prop :=
+        match a, b with
+        | Value v, Value w => v = w
+        | Full d, Full e => forall n, aget d n = aget e n
+        | _, _ => False
+        end.
+
+      (* whatever happens in a call, the cache still satisfies cache_inv *)
+      Lemma crun_cache_inv use c o r lg c' : cache_inv c ->
+        crun body pick P false use p c o kw full = (r, lg, c') -> cache_inv c'.
+      Proof.
+        intros Hc H. unfold crun in H. destruct (negb (is_node p o)); [now injection H as _ _ <-|].
+        destruct (ahas kw o) eqn:Ek; [now injection H as _ _ <-|]. apply ahas_false in Ek.
+        destruct (crun_out body pick P false use p kw full (S (length p)) (cinit kw c) o) as [st r0] eqn:Er.
+        destruct (sound kw full use (S (length p)) (cinit kw c) o st r0 (init_inv c Hc) Ek Er) as [[_ Hc'] _].
+        destruct r0 as [v|e]; [|now injection H as _ _ <-].
+        destruct (negb (xhit st) && _); now injection H as _ _ <-.
+      Qed.
+
+      Theorem call_transparent cu cc o out_u lgu cu' : cache_inv cu -> cache_inv cc ->
+        crun body pick P false false p cu o kw full = (Ok out_u, lgu, cu') ->
+        exists out_c lgc cc', crun body pick P false true p cc o kw full = (Ok out_c, lgc, cc')
+                              /\ outcome_eq out_u out_c.
+      Proof.
+        intros Hcu Hcc H. unfold crun in *. destruct (negb (is_node p o)); [discriminate|].
+        destruct (ahas kw o) eqn:Ek; [discriminate|]. apply ahas_false in Ek.
+        destruct (RUNU (S (length p)) (cinit kw cu) o) as [stu ru] eqn:Eu.
+        destruct ru as [v|e]; [|discriminate].
+        pose proof (hit_full kw full false (S (length p)) _ _ _ _ (or_intror eq_refl) Eu) as Hxu. cbn in Hxu.
+        rewrite Hxu in H. cbn [negb andb] in H.
+        destruct (cunused kw stu) as [|a l] eqn:Eun; [|discriminate]. injection H as <- _ _.
+        pose proof (init_inv cu Hcu) as Hiu. pose proof (init_inv cc Hcc) as Hic.
+        destruct (sound kw full false (S (length p)) (cinit kw cu) o stu (Ok v) Hiu Ek Eu) as [_ [_ He]].
+        specialize (He v eq_refl).
+        assert (Hrk : RK o < S (length p)).
+        { destruct (eval_ok_inv kw o v He) as [f [_ [_ [_ [Hf _]]]]]. pose proof (rk_lt_len o f Hf). lia. }
+        destruct (complete kw full true (S (length p)) (cinit kw cc) o v Hic Ek He Hrk) as [stc [Ec [Hic' _]]].
+        rewrite Ec. destruct (xhit stc) eqn:Exc.
+        - (* a result was returned early from the cache: the unused-keyword check is skipped; full_output is off *)
+          cbn [negb andb]. destruct full eqn:Efull.
+          + rewrite (hit_full kw true true (S (length p)) _ _ _ _ (or_introl eq_refl) Ec) in Exc. discriminate.
+          + eexists _, _, _. split; reflexivity.
+        - assert (HR0 : simR [] (cinit kw cc) (cinit kw cu)) by (split; [reflexivity | intros n _; reflexivity]).
+          destruct (sim (S (length p)) [] (cinit kw cc) (cinit kw cu) o stc (Ok v) stu v HR0
+                      (fun x Hx => match Hx with end) Hic Hiu Ek Ec Eu Exc) as [_ [Hused Hres]].
+          assert (Eunc : cunused kw stc = []) by (unfold cunused in *; now rewrite Hused).
+          rewrite Eunc. cbn [negb andb]. eexists _, _, _. split; [reflexivity|].
+          destruct full; cbn; [|reflexivity]. intros n. symmetry. apply Hres. intros [].
       Qed.
     End Twin.
 
